@@ -58,7 +58,8 @@ def configs(tier, seed):
             for sd in cands:
                 if len(sd) > 4:
                     continue
-                sps = ["ellipsis"] if all(s[0] == "none" for s in sel) else ["dictl"]
+                # (keys name their dimension by letter; every other source arrangement also by the dimension's name)
+                sps = ["ellipsis"] if all(s[0] == "none" for s in sel) else (["dictl", "dictn"] if len(out) % 2 else ["dictl"])
                 for sp in sps:
                     out.append(dict(h="assign_fa", op=sp, key=f"assign_fa/{shape}/{sel_key(sel)}/{sp}/src={sd or '-'}", td=td, lens=lens,
                                     sel=[list(s) for s in sel], sp=sp, sd=sd))
@@ -109,7 +110,7 @@ def configs(tier, seed):
     from checks import c06 as _c06
 
     for c in _c06.configs("quick", seed):
-        if c["h"] in ("tuple_key", "falsy_label") and c.get("rhs", "number") != "read":
+        if c["h"] in ("tuple_key", "falsy_label", "int_labels") and c.get("rhs", "number") != "read":
             out.append(dict(c, td=c["xd"]))
     seen, res = set(), []
     for c in out:
@@ -162,7 +163,7 @@ def _assert_unchanged(w, tag, t, T, td, shape):
 def run(cfg, w):
     from flodym import FlodymArray, Dimension, DimensionSet
 
-    if cfg["h"] in ("tuple_key", "falsy_label"):
+    if cfg["h"] in ("tuple_key", "falsy_label", "int_labels"):
         from checks import c06 as _c06
 
         return _c06.run(cfg, w)
